@@ -140,7 +140,8 @@ func jbadRun(f []string) string {
 //	        CSV file with these bytes ("!" = the file does not exist).  Observation: newerr | ok <rows>
 //	        (rows of source.users: "k=v;k=v" sorted by key, rows joined by "|").
 
-var vsFs = afero.NewMemMapFs()
+var vsFault = &faultFs{Fs: afero.NewMemMapFs(), at: map[string]int64{}}
+var vsFs afero.Fs = vsFault
 
 func initPlugins() {
 	scenarioimport.Import(vsFs)
